@@ -22,9 +22,12 @@ inductive KState (t : Table) (m0 m : Spec) (fl : Bytes → Flag) (p : Bytes) : P
       (h2 : assocGet t.rowmap p = some i) (h3 : t.rows[i]? = some ⟨.update, p, d, some old⟩)
       (h4 : m0 p = some old) (h5 : m p = some d) (h6 : d.pk = p) (h7 : fl p = .written)
 
+/-- primary keys the theorems speak about: without the '-' separator and non-empty. -/
+def OKpk (p : Bytes) : Prop := NoSep p ∧ p ≠ []
+
 structure Inv (db0 : TDB) (m0 : Spec) (t : Table) (m : Spec) (fl : Bytes → Flag) : Prop where
   db : t.db = db0
-  nosep : ∀ r ∈ t.rows, NoSep r.primary
+  nosep : ∀ r ∈ t.rows, OKpk r.primary
   savable : ∀ r ∈ t.rows, r.ty = .update → r.old ≠ none
   keys : ∀ p, KState t m0 m fl p
 
@@ -200,7 +203,7 @@ theorem findRow_cached (t : Table) (q : Bytes) (i : Nat) (r : CRow)
 
 /-- Inv after appending a row for `q` given the new per-key state of `q`. -/
 theorem inv_append (db0 : TDB) (m0 : Spec) (t : Table) (m m' : Spec) (fl fl' : Bytes → Flag) (r : CRow)
-    (q : Bytes) (hinv : Inv db0 m0 t m fl) (hr : r.primary = q) (hq : NoSep q)
+    (q : Bytes) (hinv : Inv db0 m0 t m fl) (hr : r.primary = q) (hq : OKpk q)
     (hsav : r.ty = .update → r.old ≠ none)
     (hm : ∀ p, p ≠ q → m' p = m p) (hfl : ∀ p, p ≠ q → fl' p = fl p)
     (hkq : KState (addRowCache t r) m0 m' fl' q) : Inv db0 m0 (addRowCache t r) m' fl' := by
@@ -225,7 +228,7 @@ theorem inv_append (db0 : TDB) (m0 : Spec) (t : Table) (m m' : Spec) (fl fl' : B
 theorem inv_set (db0 : TDB) (m0 : Spec) (t : Table) (m m' : Spec) (fl fl' : Bytes → Flag)
     (i : Nat) (r r' : CRow) (q : Bytes) (rowmap' : List (Bytes × Nat))
     (hinv : Inv db0 m0 t m fl) (hi : t.rows[i]? = some r) (hr : r.primary = q) (hr' : r'.primary = q)
-    (hq : NoSep q) (hsav : r'.ty = .update → r'.old ≠ none)
+    (hq : OKpk q) (hsav : r'.ty = .update → r'.old ≠ none)
     (hmap : ∀ p, p ≠ q → assocGet rowmap' p = assocGet t.rowmap p)
     (hm : ∀ p, p ≠ q → m' p = m p) (hfl : ∀ p, p ≠ q → fl' p = fl p)
     (hkq : KState { t with rows := t.rows.set i r', rowmap := rowmap' } m0 m' fl' q) :
@@ -258,11 +261,11 @@ theorem getElem?_lt {α : Type} (l : List α) (i : Nat) (x : α) (h : l[i]? = so
 
 /-- the key is clean (nothing effective buffered) and absent from the map at the last save. -/
 theorem step_clean_absent (db0 : TDB) (m0 : Spec) (hrep : Rep db0 m0) (t : Table) (m : Spec)
-    (fl : Bytes → Flag) (op : Op) (hinv : Inv db0 m0 t m fl) (hq : NoSep op.pk)
+    (fl : Bytes → Flag) (op : Op) (hinv : Inv db0 m0 t m fl) (hq : OKpk op.pk)
     (h1 : eff t.rows op.pk = []) (h2 : assocGet t.rowmap op.pk = none) (h3 : m op.pk = m0 op.pk)
     (hm0 : m0 op.pk = none) :
     (exec t op).2 = (specStep m op).2 ∧ Inv db0 m0 (exec t op).1 (specStep m op).1 fl := by
-  have hfind := findRow_db t db0 m0 op.pk hinv.db (hrep op.pk hq) h2
+  have hfind := findRow_db t db0 m0 op.pk hinv.db (hrep op.pk hq.1) h2
   rw [hm0] at hfind
   have hmq : m op.pk = none := by rw [h3, hm0]
   cases op with
@@ -295,12 +298,12 @@ theorem step_clean_absent (db0 : TDB) (m0 : Spec) (hrep : Rep db0 m0) (t : Table
 
 /-- the key is clean and was stored at the last save (flag fresh). -/
 theorem step_clean_present (db0 : TDB) (m0 : Spec) (hrep : Rep db0 m0) (t : Table) (m : Spec)
-    (fl fl' : Bytes → Flag) (op : Op) (hinv : Inv db0 m0 t m fl) (hq : NoSep op.pk)
+    (fl fl' : Bytes → Flag) (op : Op) (hinv : Inv db0 m0 t m fl) (hq : OKpk op.pk)
     (h1 : eff t.rows op.pk = []) (h2 : assocGet t.rowmap op.pk = none) (h3 : m op.pk = m0 op.pk)
     (old : Row) (hm0 : m0 op.pk = some old) (hfl : fl op.pk = .fresh)
     (hgood : goodStep m0 fl op = some fl') :
     (exec t op).2 = (specStep m op).2 ∧ Inv db0 m0 (exec t op).1 (specStep m op).1 fl' := by
-  have hfind := findRow_db t db0 m0 op.pk hinv.db (hrep op.pk hq) h2
+  have hfind := findRow_db t db0 m0 op.pk hinv.db (hrep op.pk hq.1) h2
   rw [hm0] at hfind
   have hmq : m op.pk = some old := by rw [h3, hm0]
   simp only [goodStep, hm0, hfl] at hgood
@@ -346,7 +349,7 @@ theorem step_clean_present (db0 : TDB) (m0 : Spec) (hrep : Rep db0 m0) (t : Tabl
 
 /-- the key has a buffered Add row (it was absent at the last save). -/
 theorem step_added (db0 : TDB) (m0 : Spec) (t : Table) (m : Spec)
-    (fl : Bytes → Flag) (op : Op) (hinv : Inv db0 m0 t m fl) (hq : NoSep op.pk)
+    (fl : Bytes → Flag) (op : Op) (hinv : Inv db0 m0 t m fl) (hq : OKpk op.pk)
     (i : Nat) (d : Row) (h1 : eff t.rows op.pk = [⟨.add, op.pk, d, none⟩])
     (h2 : assocGet t.rowmap op.pk = some i) (h3 : t.rows[i]? = some ⟨.add, op.pk, d, none⟩)
     (h4 : m0 op.pk = none) (h5 : m op.pk = some d) :
@@ -390,7 +393,7 @@ theorem step_added (db0 : TDB) (m0 : Spec) (t : Table) (m : Spec)
 
 /-- the key has a buffered Update row (it was stored at the last save; flag written). -/
 theorem step_updated (db0 : TDB) (m0 : Spec) (t : Table) (m : Spec)
-    (fl fl' : Bytes → Flag) (op : Op) (hinv : Inv db0 m0 t m fl) (hq : NoSep op.pk)
+    (fl fl' : Bytes → Flag) (op : Op) (hinv : Inv db0 m0 t m fl) (hq : OKpk op.pk)
     (i : Nat) (d old : Row) (h1 : eff t.rows op.pk = [⟨.update, op.pk, d, some old⟩])
     (h2 : assocGet t.rowmap op.pk = some i) (h3 : t.rows[i]? = some ⟨.update, op.pk, d, some old⟩)
     (h4 : m0 op.pk = some old) (h5 : m op.pk = some d) (h7 : fl op.pk = .written)
@@ -467,7 +470,7 @@ theorem step_updated (db0 : TDB) (m0 : Spec) (t : Table) (m : Spec)
 
 /-- one good step keeps the simulation invariant and answers like the map. -/
 theorem step_inv (db0 : TDB) (m0 : Spec) (hrep : Rep db0 m0) (t : Table) (m : Spec)
-    (fl fl' : Bytes → Flag) (op : Op) (hinv : Inv db0 m0 t m fl) (hq : NoSep op.pk)
+    (fl fl' : Bytes → Flag) (op : Op) (hinv : Inv db0 m0 t m fl) (hq : OKpk op.pk)
     (hgood : goodStep m0 fl op = some fl') :
     (exec t op).2 = (specStep m op).2 ∧ Inv db0 m0 (exec t op).1 (specStep m op).1 fl' := by
   cases hinv.keys op.pk with
@@ -497,7 +500,7 @@ theorem inv_init (db0 : TDB) (m0 : Spec) : Inv db0 m0 { db := db0 } m0 (fun _ =>
   · intro p; exact .clean rfl rfl rfl (fun _ => rfl)
 
 theorem run_inv (db0 : TDB) (m0 : Spec) (hrep : Rep db0 m0) (ops : List Op) (t : Table) (m : Spec)
-    (fl : Bytes → Flag) (hinv : Inv db0 m0 t m fl) (hns : ∀ op ∈ ops, NoSep op.pk)
+    (fl : Bytes → Flag) (hinv : Inv db0 m0 t m fl) (hns : ∀ op ∈ ops, OKpk op.pk)
     (hgood : GoodRun m0 fl ops) :
     (run t ops).2 = (specRun m ops).2 ∧ ∃ fl', Inv db0 m0 (run t ops).1 (specRun m ops).1 fl' := by
   induction ops generalizing t m fl with
@@ -566,7 +569,7 @@ theorem inv_save (db0 : TDB) (m0 : Spec) (hrep : Rep db0 m0) (t : Table) (m : Sp
       get (applyKVs db0 (delDupKey (t.rows.map rowKVs).flatten)) key =
         overlay (lastW ((eff t.rows p).map rowKVs).flatten key) (get db0 key) := by
     intro key hk
-    rw [get_applyKVs, lastW_delDupKey, lastW_eff t.rows p key hp hk hinv.nosep]
+    rw [get_applyKVs, lastW_delDupKey, lastW_eff t.rows p key hp hk (fun r hr => (hinv.nosep r hr).1)]
   cases hinv.keys p with
   | clean h1 h2 h3 h4 =>
     apply repAtG_congr (get db0) _ m0 m p _ h3.symm (hrep p hp)
@@ -597,5 +600,29 @@ theorem inv_save (db0 : TDB) (m0 : Spec) (hrep : Rep db0 m0) (t : Table) (m : Sp
     · intro key hk
       rw [hview key hk, h1]; simp
     · simp [specStep, h6, h4, Spec.set, h5]
+
+/-- an invariant state saves to a sorted db of table shape. -/
+theorem inv_shape (db0 : TDB) (m0 : Spec) (t : Table) (m : Spec) (fl : Bytes → Flag)
+    (hinv : Inv db0 m0 t m fl) (hs : C09.Sorted db0) (hshape : Shape db0) (kvs : List KV)
+    (hk : saveKVs t = some kvs) : C09.Sorted (applyKVs db0 kvs) ∧ Shape (applyKVs db0 kvs) := by
+  have hsave : saveKVs t = some (delDupKey (t.rows.map rowKVs).flatten) := by
+    unfold saveKVs
+    rw [mapM_saveRow t.rows (fun r hr => saveRow_of_savable r (hinv.savable r hr))]
+    rfl
+  rw [hsave] at hk
+  have hkvs := (Option.some.inj hk).symm
+  subst hkvs
+  refine ⟨sorted_applyKVs db0 _ hs, ?_⟩
+  intro e he
+  rcases mem_applyKVs db0 _ e he with h | h
+  · exact hshape e h
+  · have h1 := mem_delDupKey _ _ h
+    simp only [List.mem_flatten, List.mem_map] at h1
+    obtain ⟨l, ⟨r, hr, hl⟩, hmem⟩ := h1
+    subst hl
+    have hok := hinv.nosep r hr
+    rcases rowKVs_vals r e.1 e.2 hmem with h2 | ⟨ix, hix, x, h2, h3⟩
+    · left; exact ⟨r.primary, h2⟩
+    · right; exact ⟨ix, hix, x, r.primary, hok.1, hok.2, Prod.ext h2 h3⟩
 
 end C10
